@@ -3,3 +3,7 @@
 
 def nostd(ctx, rule):
     pass
+
+
+def finalize_shared(ctx, rule):
+    pass
